@@ -68,9 +68,11 @@ boost::optional<H5Group> GroupHDF5::findEntityGroup(const nix::Identity &ident) 
 
     if (foundNeedle) {
         g = boost::make_optional(p->openGroup(needle, false));
-    } else {
+    } else if (!(haveName && haveId)) {
         // members are linked under their id; a name that looks like a UUID is
-        // classified as an id but still has to be looked up as a name
+        // classified as an id but still has to be looked up as a name.
+        // An entity (name and id known) is a member only under its id: another
+        // member that merely carries the same name is a different entity.
         g = p->findGroupByAttribute("name", haveName ? iname : iid);
     }
 
